@@ -138,7 +138,7 @@ func (g *docGen) number() V {
 		g.feat("num_bigint")
 	case 3: // fraction
 		ip := strconv.Itoa(drawInt(g.t, -1000, 1000, "ip"))
-		if drawInt(g.t, 0, 5, "z") == 0 {
+		if oneIn(g.t, 6, "z") {
 			ip = []string{"0", "-0"}[drawInt(g.t, 0, 1, "z0")]
 		}
 		nd := drawInt(g.t, 1, 6, "nd")
@@ -164,10 +164,10 @@ func (g *docGen) number() V {
 		e := []string{"e", "E"}[drawInt(g.t, 0, 1, "e")]
 		sign := []string{"", "+", "-"}[drawInt(g.t, 0, 2, "es")]
 		exp := strconv.Itoa(drawInt(g.t, 0, 290, "exp"))
-		if drawInt(g.t, 0, 4, "lead0") == 0 {
+		if oneIn(g.t, 5, "lead0") {
 			exp = "0" + exp
 		}
-		if sign == "-" && drawInt(g.t, 0, 9, "deep") == 0 {
+		if sign == "-" && oneIn(g.t, 10, "deep") {
 			exp = strconv.Itoa(drawInt(g.t, 300, 400, "exp")) // underflow towards 0 / subnormals is in range
 		}
 		raw = man + e + sign + exp
@@ -257,7 +257,7 @@ func (g *docGen) object(depth int) V {
 		}
 		g.ws()
 		var key string
-		if len(out.O) > 0 && drawInt(g.t, 0, 7, "dup") == 0 {
+		if len(out.O) > 0 && oneIn(g.t, 8, "dup") {
 			key = out.O[drawIdx(g.t, len(out.O), "dupi")].K
 			g.feat("duplicate_key")
 		} else {
@@ -291,7 +291,7 @@ func GenC03(t *rapid.T) *C03Case {
 	g.ws()
 	var v V
 	chain := 0
-	if drawInt(t, 0, 40, "chain") == 0 {
+	if oneIn(t, 41, "chain") {
 		// deep chain class
 		max := 64
 		if Thorough() {
